@@ -34,7 +34,10 @@ Ret == /\ E.ev = "ret"
        /\ IF loose
           THEN /\ E.launches <= 1 /\ E.tmpdirs <= 1 /\ E.res \notin BadResults
                /\ UNCHANGED vars
-          ELSE IF E.op = "Crash" THEN (Crash \/ (proc # "alive" /\ UNCHANGED vars)) ELSE Call(E.op) /\ Matches
+          ELSE IF E.op = "Crash" THEN (Crash \/ (proc # "alive" /\ UNCHANGED vars))
+               ELSE /\ Call(E.op) /\ Matches
+                    \* Kill of a live, connected plugin asks it to quit before anything else
+                    /\ (E.op = "Kill" /\ runnerSet /\ addrSet /\ proc = "alive") => E.quit_seen
        /\ UNCHANGED loose
 
 End == /\ E.ev = "end" /\ E.launches <= 1 /\ E.tmpdirs <= 1 /\ ~E.tmp_present
